@@ -120,6 +120,16 @@ AsciiSlices(b) ==
   IN {LET raw == HexDec(SubSeq(b, j + 1, endOf(j) - 1)) IN
       [uid |-> raw[1], tid |-> 0, pid |-> 0, pdu |-> SubSeq(raw, 2, Len(raw) - 1)] : j \in {x \in starts : good(x)}}
 
+(* RTU: truncated or damaged frames can combine with the bytes that follow them into a frame whose CRC is right by construction    *)
+(* (a frame cut one byte short, followed by a frame that starts with the missing CRC byte).  Searching every slice for a valid    *)
+(* CRC is expensive, so it is done lazily and pre-filtered: only when no ghost frame explains an observation, and only at offsets  *)
+(* whose unit / function bytes fit it.                                                                                             *)
+RtuSlicesFor(b, uids, fcs) ==
+  {[uid |-> b[o[1]], tid |-> 0, pid |-> 0, pdu |-> SubSeq(b, o[1] + 1, o[1] + o[2] - 3)] :
+     o \in {x \in (1..Len(b)) \X (4..256) :
+              /\ x[1] + x[2] - 1 <= Len(b) /\ b[x[1]] \in uids /\ b[x[1] + 1] \in fcs
+              /\ SubSeq(b, x[1], x[1] + x[2] - 1) = RtuFrame(b[x[1]], SubSeq(b, x[1] + 1, x[1] + x[2] - 3))}}
+
 (* value a valid write frame would store in cell <<u, blk, a>>, or -1 *)
 WritesCell(f, u, blk, a, v) ==
   LET r0 == ParseReq(f.pdu)
@@ -151,8 +161,12 @@ EvalHostile(ev) ==
               \cup (IF T.kind = "ascii" THEN AsciiSlices(SubSeq(T.streams[c], 1, nfed)) ELSE {})
       ws == WritesTo(ev, c)
       parsed == [k \in 1..Len(ws) |-> ParseFrame(T.kind, ws[k].bytes)]
-      justifiedWrite(x) == \E f \in cand : WritesCell(f, x[1], x[2], x[3], x[4])
-      answersSome(p) == \E f \in cand : HeaderOK(T.kind, p, f)
+      rtuNow == SubSeq(T.streams[c], 1, nfed)
+      justifiedWrite(x) == \/ \E f \in cand : WritesCell(f, x[1], x[2], x[3], x[4])
+                           \/ T.kind = "rtu" /\ \E f \in RtuSlicesFor(rtuNow, 0..255, {5, 6, 15, 16, 22, 23}) :
+                                                   WritesCell(f, x[1], x[2], x[3], x[4])
+      answersSome(p) == \/ \E f \in cand : HeaderOK(T.kind, p, f)
+                        \/ T.kind = "rtu" /\ p.pdu # <<>> /\ \E f \in RtuSlicesFor(rtuNow, {p.uid}, {p.pdu[1], p.pdu[1] % 128}) : HeaderOK(T.kind, p, f)
       fails == (IF ev.raised # "" THEN {"NoEscape"} ELSE {})
                \cup (IF Elsewhere(ev, c) # <<>> THEN {"WrongDestination"} ELSE {})
                \cup (IF \E k \in 1..Len(ws) : ~parsed[k].ok THEN {"NotAResponseFrame"}
